@@ -7,11 +7,16 @@ obligation expected to fail, functions to restrict the run to or '-'), runs the 
 requires a violation. Prints one SELFTEST line per edit; an undetected edit prints SELFTEST-WEAKNESS. Never changes the
 exit status of the check (an undetected edit is a weakness of the contracts, not a violation by /repo). With
 SELFTEST_EVIDENCE=1 the summary is added to evidence/<Cxx>.json under coverage.selftest."""
-import json, os, re, shutil, subprocess, sys, threading, queue
+import json, os, re, shutil, subprocess, sys, threading, queue, time
+
+T0 = time.time()
 
 V = '/verif'
 ENV = dict(os.environ, GOFLAGS='-mod=mod', GOPROXY='off', GOSUMDB='off', GOTOOLCHAIN='local')
 WORKERS = int(os.environ.get('SELFTEST_WORKERS', '8'))
+# wall-clock budget of one corpus run: edits not started when it is used up are reported as skipped (time budget), so
+# the thorough tier of a property with a large corpus stays bounded (about half an hour by default)
+BUDGET_S = int(os.environ.get('SELFTEST_BUDGET_S', '1800'))
 
 
 def main():
@@ -48,6 +53,10 @@ def main():
                     i, (ename, file, expr, expect, only) = q.get_nowait()
                 except queue.Empty:
                     break
+                if time.time() - T0 > BUDGET_S:
+                    with lock:
+                        results[i] = ('skipped', 'time budget of %d s used up' % BUDGET_S)
+                    continue
                 path = os.path.join(W, 'repo', file)
                 orig = open(path, 'rb').read()
                 subprocess.run(['sed', '-i', expr, path])
